@@ -506,6 +506,7 @@ class Queue(Greenlet):
             for entry in self.queued:
                 self._pool_spawn('store', self._dequeue, entry[1])
             self.queued = []
+            self.queued_ids = set()
         finally:
             self.queued_lock.release()
 
@@ -530,6 +531,8 @@ class Queue(Greenlet):
                 self._wait_ready(now)
             finally:
                 self.queued_lock.release()
+            # Give a flush() waiting for the lock the chance to take it.
+            gevent.sleep(0)
 
 
 # vim:et:fdm=marker:sts=4:sw=4:ts=4
